@@ -187,7 +187,11 @@ def unary_ref_check(c):
             ref = _f32(ref)
         # absolute slack: proportional to |argument| only for the periodic functions (argument reduction)
         scale = max(1.0, abs(a)) if c["op"] in ("Sin", "Cos", "Tan") and math.isfinite(a) and abs(a) < 1e6 else 1.0
-        ok = float_close(ref, y, dt) or (math.isfinite(ref) and math.isfinite(y) and abs(ref - y) <= (1e-6 if dt == "f32" else 1e-14) * scale)
+        # absolute slack only where the function has zeros with ill-conditioned neighbourhoods (periodic functions) or
+        # in float32 (results below the normal range flush); float64 results of the other functions are relative-accurate
+        # however small they are (Sigmoid(-100) = 3.7e-44, not "about 0")
+        abs_ok = c["op"] in ("Sin", "Cos", "Tan") or dt == "f32"
+        ok = float_close(ref, y, dt) or (abs_ok and math.isfinite(ref) and math.isfinite(y) and abs(ref - y) <= (1e-6 if dt == "f32" else 1e-14) * scale)
         if dt == "f32" and not ok and math.isfinite(ref) and math.isfinite(y):
             # results that are tiny or huge in float32 may legitimately flush / saturate by one ulp
             ok = abs(ref - y) <= 2e-5 * max(abs(ref), abs(y)) + 1e-37
@@ -291,6 +295,9 @@ def judge_op(c):
                 verdict = "holds"
             elif st == "panic":
                 verdict, what = "violates", "panic instead of an error"
+            elif spec.get("not_outs") is not None and outs_eq(impl.get("outs"), spec.get("not_outs")) and \
+                    any(any(v != 0 for v in floats_of(t)) for t in impl.get("outs") or [] if t):
+                verdict, what = "violates", "computed as if an attribute that changes the result were absent, instead of refusing"
             elif spec.get("outs") is None or outs_eq(impl.get("outs"), spec.get("outs")):
                 verdict = "holds"
             else:
@@ -301,6 +308,10 @@ def judge_op(c):
         verdict, what = unary_ref_check(c)
     if verdict == "unjudged" and c.get("op") in ("Softmax", "LogSoftmax") and impl["status"] == "ok" and c.get("p", {}).get("props"):
         verdict, what = softmax_props(c)
+    elif verdict == "unjudged" and c.get("op") in ("Softmax", "LogSoftmax") and impl["status"] != "ok" and (c.get("p") or {}).get("props") \
+            and c.get("inputs") and (c["inputs"][0] or {}).get("dt") in ("f32", "f64"):
+        # the axis is within [-rank, rank) and the element type is a float: the operator has to compute
+        verdict, what = "violates", f"must compute (axis {c['p'].get('axis')} is valid), but {impl['status']}: {impl.get('msg','')[:100]}"
     # an operator instance that was applied before must answer like a fresh one
     if verdict != "violates" and impl.get("reuse"):
         verdict, what = "violates", "a re-used operator instance answers differently after " + "; ".join(impl["reuse"])[:200]
@@ -334,6 +345,8 @@ def gate_spec(c):
     mn, mx, cons = d["min"], d["max"], d["constraints"]
     if c.get("arity"):
         mn, mx = c["arity"]     # the ONNX arity (driver, Spec/Arity.lean), not what the code declares
+    if c.get("types") is not None:
+        cons = c["types"]       # the pinned element types (driver, Spec/Types.lean)
     if n < mn or n > mx:
         return {"status": "error", "errkind": "input.count"}
     pad = mx
